@@ -2,7 +2,7 @@
   Lemmas/CoreRolesP — how every function of M-Core moves the proposer field of every rollapp.
 -/
 import DymVerif.Lemmas.CoreRoles5
-namespace DymVerif.Core
+namespace DymVerif.Core.Roles
 
 /-- the proposer slot of rollapp `id`: `none` = no such rollapp, `some none` = empty slot (sentinel) -/
 def propOf (s : St) (id : Nat) : Option (Option Addr) := (getRa s id).map (·.proposer)
@@ -568,4 +568,4 @@ theorem beginBlock_psame (s : St) (dt : Nat) : PSame s (beginBlock s dt) := by
   · exact PSame.of_ras rfl
   · intro b e hb; exact hb.trans (beginStep_psame b e)
 
-end DymVerif.Core
+end DymVerif.Core.Roles
